@@ -42,6 +42,8 @@ pub enum Spec {
     MapN(Vec<usize>),
     MapWithOld(usize),
     Fold(Vec<usize>),
+    /// fold of scalar inputs into a *pair* accumulator `(f(acc.0, x), 0)`: accumulator type differs from the element type
+    FoldP(Vec<usize>),
     Zip(usize, usize),
     DependOn(usize, usize),
     /// `pvar.map_ref(|p| &p.0)`
@@ -65,6 +67,7 @@ impl Spec {
             Spec::MapN(v) => match v.len() { 4 => "Map4", 5 => "Map5", _ => "Map6" },
             Spec::MapWithOld(_) => "MapWithOld",
             Spec::Fold(_) => "Fold",
+            Spec::FoldP(_) => "FoldP",
             Spec::Zip(..) => "Zip",
             Spec::DependOn(..) => "DependOn",
             Spec::Fst(_) => "Fst",
@@ -79,7 +82,7 @@ impl Spec {
             Spec::Map(a) | Spec::MapWithOld(a) | Spec::Fst(a) | Spec::PMap(a) | Spec::RefId(a) => vec![*a],
             Spec::Map2(a, b) | Spec::Zip(a, b) | Spec::DependOn(a, b) => vec![*a, *b],
             Spec::Map3(a, b, c) => vec![*a, *b, *c],
-            Spec::Fold(v) | Spec::MapN(v) => v.clone(),
+            Spec::Fold(v) | Spec::FoldP(v) | Spec::MapN(v) => v.clone(),
             Spec::Bind { lhs, .. } => vec![*lhs],
         }
     }
@@ -813,6 +816,14 @@ impl World {
                     app(f, &[acc, x.clone()])
                 }))
             }
+            Spec::FoldP(v) => {
+                let hs: Vec<Incr<SV>> = v.iter().map(|j| self.s_handle(*j).unwrap()).collect();
+                Handle::P(self.state.as_ref().unwrap().fold(hs, (SV::lit(0), SV::lit(0)), move |acc: Pair, x: &SV| {
+                    let _ = &g;
+                    sh.invoke(key, vec![acc.0.clone(), x.clone()]);
+                    (app(f, &[acc.0, x.clone()]), SV::lit(0))
+                }))
+            }
             Spec::Zip(a, b) => {
                 let (a, b) = (self.s_handle(*a).unwrap(), self.s_handle(*b).unwrap());
                 Handle::S(a.zip(&b).map(move |p| {
@@ -1253,7 +1264,7 @@ impl World {
             // group the calls of one fold evaluation
             let mut last = i;
             if let NodeKey::Main(n) = inv.key {
-                if matches!(self.nodes[n].spec, Spec::Fold(_)) {
+                if matches!(self.nodes[n].spec, Spec::Fold(_) | Spec::FoldP(_)) {
                     while last + 1 < log.len() && log[last + 1].key == inv.key {
                         last += 1;
                     }
@@ -1441,6 +1452,27 @@ impl World {
                         self.c06_val.insert(i, new);
                     }
                 }
+                Spec::FoldP(v) => {
+                    let run = first || v.iter().any(|j| ns[*j]);
+                    if run {
+                        let mut acc = SV::lit(0);
+                        let mut calls = vec![];
+                        for j in v {
+                            let x = self.c06_val[j].clone();
+                            calls.push(vec![acc.clone(), x.clone()]);
+                            acc = app(f, &[acc, x]);
+                        }
+                        expect_inv = Some(calls);
+                        let new: Pair = (acc, SV::lit(0));
+                        let old = self.c06_pval.get(&i).cloned();
+                        // default (PartialEq) cutoff on the pair accumulator
+                        ns[i] = match &old {
+                            None => true,
+                            Some(o) => !exec::decide(F::and(vec![F::eq(&o.0, &new.0), F::eq(&o.1, &new.1)])),
+                        };
+                        self.c06_pval.insert(i, new);
+                    }
+                }
                 Spec::DependOn(..) | Spec::Bind { .. } => panic!("symx: C06 reference does not model {kind}"),
             }
             if ns[i] {
@@ -1494,6 +1526,21 @@ impl World {
 
     // ------------------------------------------------------------------ reference evaluator
 
+    /// Pair value of a pair-typed node (pair var or pair fold) from scratch on the current variable values.
+    fn pair_now(&self, p: usize, memo: &mut BTreeMap<usize, SV>) -> Pair {
+        match &self.nodes[p].spec {
+            Spec::FoldP(v) => {
+                let f = p as u16;
+                let mut acc = SV::lit(0);
+                for j in v {
+                    acc = app(f, &[acc, self.eval(*j, memo)]);
+                }
+                (acc, SV::lit(0))
+            }
+            _ => self.pvars[&p].1.clone(),
+        }
+    }
+
     /// Value of node `i` from scratch on the current variable values.
     pub fn eval(&self, i: usize, memo: &mut BTreeMap<usize, SV>) -> SV {
         if let Some(v) = memo.get(&i) {
@@ -1519,8 +1566,12 @@ impl World {
                 acc
             }
             Spec::DependOn(a, _) => self.eval(*a, memo),
-            Spec::Fst(p) => self.pvars[p].1 .0.clone(),
-            Spec::PMap(p) => app(f, &[self.pvars[p].1 .0.clone(), self.pvars[p].1 .1.clone()]),
+            Spec::FoldP(_) => panic!("symx: pair fold has no scalar value"),
+            Spec::Fst(p) => self.pair_now(*p, memo).0,
+            Spec::PMap(p) => {
+                let pv = self.pair_now(*p, memo);
+                app(f, &[pv.0, pv.1])
+            }
             Spec::RefId(a) => self.eval(*a, memo),
             Spec::Bind { lhs, then, els } => {
                 let l = self.eval(*lhs, memo);
@@ -1550,8 +1601,11 @@ impl World {
                     Spec::Map2(a, b) | Spec::Zip(a, b) => vec![vec![self.eval(*a, memo), self.eval(*b, memo)]],
                     Spec::Map3(a, b, c) => vec![vec![self.eval(*a, memo), self.eval(*b, memo), self.eval(*c, memo)]],
                     Spec::MapN(v) => vec![v.iter().map(|j| self.eval(*j, memo)).collect()],
-                    Spec::PMap(p) => vec![vec![self.pvars[p].1 .0.clone(), self.pvars[p].1 .1.clone()]],
-                    Spec::Fold(v) => {
+                    Spec::PMap(p) => {
+                        let pv = self.pair_now(*p, memo);
+                        vec![vec![pv.0, pv.1]]
+                    }
+                    Spec::Fold(v) | Spec::FoldP(v) => {
                         let mut out = vec![];
                         let mut acc = SV::lit(0);
                         for j in v {
